@@ -78,7 +78,15 @@ func runC20(c *core.Ctx) {
 		}
 	}
 	c.Info("request_length_for_empty_name", baseLen)
+	lengths := []int{}
 	for n := 0; n <= L; n++ {
+		lengths = append(lengths, n)
+	}
+	if !c.Thorough() {
+		// a few longer names in the quick tier too
+		lengths = append(lengths, 255, 256, 257, 258, 511, 512, 513, 1000, 1024, 4096, 4128)
+	}
+	for _, n := range lengths {
 		variants := []int{0}
 		if n%32 == 0 || n%32 == 1 || n%32 == 31 {
 			variants = []int{0, 1, 2}
